@@ -288,15 +288,22 @@ pub fn isolated_main(reset_ev: &str, end_ev: &str, default_timeout_ms: u64, para
             }
             let sc = &scs[i];
             let tmp = format!("{out_base}.child{i}");
-            let _ = std::fs::remove_file(&tmp);
+            let tmp_err = format!("{out_base}.child{i}.err");
             let limit = Duration::from_millis(sc.get("timeout_ms").and_then(Value::as_u64).unwrap_or(default_timeout_ms));
+            let mut attempt = 0;
+            let (status, how, err, mut text) = loop {
+            attempt += 1;
+            let _ = std::fs::remove_file(&tmp);
+            // stderr goes to a file: a pipe that nobody reads while the child runs would block a child that
+            // writes more than the pipe holds (the runtime prints a line per thread token with io_uring)
+            let errf = File::create(&tmp_err).expect("create stderr file");
             let mut child = std::process::Command::new(&exe)
                 .arg(&scen_path)
                 .arg(&tmp)
                 .arg("--only")
                 .arg(i.to_string())
                 .stdout(std::process::Stdio::null())
-                .stderr(std::process::Stdio::piped())
+                .stderr(errf)
                 .spawn()
                 .expect("spawn child");
             let t0 = Instant::now();
@@ -316,21 +323,26 @@ pub fn isolated_main(reset_ev: &str, end_ev: &str, default_timeout_ms: u64, para
                     Err(_) => break None,
                 }
             };
-            let mut err = String::new();
-            if let Some(mut e) = child.stderr.take() {
-                use std::io::Read;
-                let mut buf = vec![];
-                let _ = e.read_to_end(&mut buf);
-                err = String::from_utf8_lossy(&buf).chars().rev().take(300).collect::<String>().chars().rev().collect();
-            }
+            let mut err: String = std::fs::read(&tmp_err)
+                .map(|b| String::from_utf8_lossy(&b).chars().rev().take(300).collect::<String>().chars().rev().collect())
+                .unwrap_or_default();
+            let _ = std::fs::remove_file(&tmp_err);
             if let Some(st) = status {
                 if !st.success() {
                     how = Some("abort".into());
                     err = format!("{st:?} {err}");
                 }
             }
-            let mut text = std::fs::read_to_string(&tmp).unwrap_or_default();
+            let text = std::fs::read_to_string(&tmp).unwrap_or_default();
             let _ = std::fs::remove_file(&tmp);
+            // a child that was killed for its time limit without having written a single record never reached
+            // the scenario (seen a few times in some thousand children): it is started once more
+            if how.as_deref() == Some("hang") && text.trim().is_empty() && attempt < 2 {
+                continue;
+            }
+            break (status, how, err, text);
+            };
+            let _ = &status;
             if !text.contains(&format!("\"ev\":\"{reset_ev}\"")) {
                 // the child died before writing anything: synthesise the reset record from the
                 // scenario's own scalar fields (the drivers' reset records carry exactly those)
